@@ -22,6 +22,16 @@ CHECKS = {
         technique="TLC model checking + edge replay + trace validation of per-transition log segments (exit<transition<entry, ancestor/descendant order, event identity, enter/exit accounting replay, LCA frame)",
         text="For every executed transition of every explored edge (families T/H/D, both interpreters) the recorded log segment is checked by Prop C03: order of exit/transition/entry marker actions, ancestor/descendant order, the event each action received, a replay of entry/exit witnesses over the pre-configuration (never enter an active state, never exit an inactive one, ends in the post-configuration) and that no witness lies outside the subtree of the LCA of source and target.",
         design="DESIGN.md section 8 C03"),
+    "C04": dict(
+        technique="TLC model checking of Prop C04 on three TLA+ layers - core macrostep semantics with raise/assign reactions, chains and send_events batches (SCCore), scheduling layer with sends during suspended macrosteps, timer expiries and service results as producers (SCSched), thread-level protocol of the sync engine's re-entrancy flag (SCSyncFlag) - each bound to the code by edge replay (real engines, virtual-time loop, real threads parked at yield points) and trace validation of burst walks",
+        text="Prop C04 (SCProps.C04Log / SCSched.C04Step) on every explored and observed step: events are dequeued in acceptance order, none lost or duplicated, the next dequeue only after the previous event settled (always follow-ups included), nothing processed re-entrantly inside a transition, raised events after the current event. Core layer: families R and A incl. batches, both interpreters; scheduling layer: families X and V on the async engine, queue carried between driver steps; thread layer: all interleavings of 2 (thorough: 3) sender threads over the flag test/set/reset and queue append/pop steps are model-checked, every counterexample and sampled complete behaviours are forced on the real SyncInterpreter with real threads and must reproduce the spec's outcome. The flag race TLC finds is a recorded known finding.",
+        design="DESIGN.md section 8 C04",
+        note="Trusted: TLC, vloop, recorder, the yield-point instrumentation of harness/flagrace.py (property/deque subclasses on the harness side). Thread interleavings at yield-point granularity, not bytecode granularity."),
+    "C15": dict(
+        technique="TLA+ actor layer (spec/SCActors.tla: spawn with explicit/automatic ids and systemIds incl. reuse, target resolution order, sendTo/forwardTo/sendParent/escalate, delayed sends + cancel, stopChild/stop, grandchildren) model-checked with TLC (exhaustive to a depth + simulation deeper); every explored behaviour executed on the real async engine under virtual time with the complete abstract actor state compared after each step",
+        text="Prop C15 on every explored step: exactly one started child per spawn registered under id and systemId; each sent event delivered exactly once to exactly the addressed actor in sending order or dropped when unresolvable/ambiguous; cancel(id) removes that pending delayed send only; stopChild/stop remove the child and all descendants from children map and system registry and nothing is received or emitted afterwards. All operation sequences over a fixed driver machine/op table up to a depth bound, every edge replayed on the real engine (running actors, children maps, registry, per-actor received events in order, pending delayed sends compared).",
+        design="DESIGN.md section 8 C15",
+        note="Trusted: TLC, vloop, the driver machine and child templates of harness/actors.py. Async engine only (thread-backed sync children are not driven). A divergence between model and code on the compared abstract state is reported as a violation of C15, since the model's step is the property's demanded outcome."),
     "C05": dict(
         technique="TLC model checking of the sync model with a spec-level equivalence of the sync/async/pure step variants; every edge executed on the three real engines in lock step and compared pairwise",
         text="For every reachable state x relevant event x guard valuation of families T/H/D/R/S (send_events batches included for R) TLC evaluates on the Impl layer whether the three engine variants of the step agree; every explored edge is then executed on SyncInterpreter, Interpreter (at quiescence) and the pure API along the same path and configuration, context, status, output and ordered action lists (with triggering events) are compared; purity of the pure API is observed on every call. Differences that are recorded defects are matched by narrow signatures (known_findings.json).",
